@@ -239,6 +239,58 @@ func (vc *VC) elemInjective(fn, ek string) {
 	vc.declareFun(ia, []string{"Int"}, "Int")
 	vc.declareFun(ii, []string{"Int"}, "Int")
 	vc.decls = append(vc.decls, "(assert (forall ((a!e Int) (i!e Int)) (! (and (= ("+ia+" ("+fn+" a!e i!e)) a!e) (= ("+ii+" ("+fn+" a!e i!e)) i!e)) :pattern (("+fn+" a!e i!e)))))")
+	// an element object exists exactly as long as its array (allocation status on entry)
+	a0 := vc.famName(allocKey, 0)
+	vc.declare(a0, allocSort)
+	vc.decls = append(vc.decls, "(assert (forall ((a!e Int) (i!e Int)) (! (= (select "+a0+" ("+fn+" a!e i!e)) (select "+a0+" a!e)) :pattern (("+fn+" a!e i!e)))))")
+}
+
+// an element object of an array exists exactly as long as the array: same allocation status on
+// entry (so the elements of an array allocated by this activation are invisible to the caller),
+// and it is not the reference of any separately allocated object
+func (vc *VC) elemFact(elem, arr Term) {
+	if vc.inQuant > 0 {
+		return
+	}
+	if vc.embSeen == nil {
+		vc.embSeen = map[string]bool{}
+	}
+	if vc.embSeen["elemfact:"+elem] {
+		return
+	}
+	vc.embSeen["elemfact:"+elem] = true
+	a0 := vc.famName(allocKey, 0)
+	vc.declare(a0, allocSort)
+	vc.emit("(assert " + sEq(sSel(a0, elem), sSel(a0, arr)) + ")")
+}
+
+// flatStruct: a struct all of whose fields are scalars, strings, slices, interfaces, pointers
+// (no embedded struct or array): its element objects have their fields directly in the H families
+func flatStruct(t types.Type) (*types.Struct, bool) {
+	s, ok := isStruct(t)
+	if !ok {
+		return nil, false
+	}
+	for i := 0; i < s.NumFields(); i++ {
+		ft := s.Field(i).Type()
+		if _, isS := isStruct(ft); isS {
+			return nil, false
+		}
+		if _, isA := isArray(ft); isA {
+			return nil, false
+		}
+	}
+	return s, true
+}
+
+// isElemOf: p is an element object of array arr (element type et)
+func (vc *VC) isElemOf(p, arr Term, et types.Type) Term {
+	ek := "M." + typeKey(et)
+	fn := sym("elem:" + ek)
+	vc.declareFun(fn, []string{"Int", "Int"}, "Int")
+	vc.elemInjective(fn, ek)
+	ia, ii := sym("elem_arr:"+ek), sym("elem_idx:"+ek)
+	return sAnd(sEq(sApp(ia, p), arr), sEq(p, sApp(fn, arr, sApp(ii, p))))
 }
 
 func (vc *VC) elemPtr(arr, idx Term, et types.Type) Value {
@@ -247,12 +299,14 @@ func (vc *VC) elemPtr(arr, idx Term, et types.Type) Value {
 		fn := sym("elem:" + ek)
 		vc.declareFun(fn, []string{"Int", "Int"}, "Int")
 		vc.elemInjective(fn, ek)
+		vc.elemFact(sApp(fn, arr, idx), arr)
 		return Value{C: []Term{sApp(fn, arr, idx)}}
 	}
 	if _, ok := isArray(et); ok {
 		fn := sym("elem:" + ek)
 		vc.declareFun(fn, []string{"Int", "Int"}, "Int")
 		vc.elemInjective(fn, ek)
+		vc.elemFact(sApp(fn, arr, idx), arr)
 		return Value{C: []Term{sApp(fn, arr, idx)}}
 	}
 	fn := sym("eaddr:" + ek)
